@@ -90,6 +90,18 @@ def random_increasing(seed: int):
     return Gamma(f"random({seed})", fn, None)
 
 
+BIG = 2 ** 53
+
+
+def big_int():
+    """int64 scores above 2^53 (not representable as distinct float64 values); thresholds are
+    int64 as well, so only on-score positions (even doubled coordinates) can be realised"""
+    g = Gamma("big_int", lambda v: np.int64(BIG + 5 + v), None, dtype=np.int64)
+    g.thr = lambda t2, flavour="mid": np.int64(BIG + 5 + t2 // 2) if t2 % 2 == 0 else \
+        (np.int64(BIG + 5 + (t2 + 1) // 2) if flavour == "hi" else np.int64(BIG + 5 + (t2 - 1) // 2))
+    return g
+
+
 def half_mixed():
     """v -> v/2; drivers build the class whose values are all integral with an integer dtype"""
     return Gamma("half_mixed", lambda v: v / 2.0, lambda x: 2.0 * x)
